@@ -2,7 +2,7 @@
     Go source ([Gen.v]) equal the ones the model (Secs2/Item.v, Encode.v, Decode.v) is written
     with. A changed format code, size cap, depth cap or [headerLen] stops this file compiling. *)
 From Coq Require Import ZArith Bool List Lia.
-From GoSecs Require Import Base.GoInt Gen.Gen Base.BytesBE Secs2.Item Secs2.Encode.
+From GoSecs Require Import Base.GoInt Gen.Gen Base.BytesBE Secs2.Item Secs2.Encode Secs2.DecodeCost Secs2.Slab.
 Import ListNotations.
 Open Scope Z_scope.
 
@@ -34,3 +34,12 @@ Proof. reflexivity. Qed.
 
 Lemma bridge_slabChunkSizes : Gen.secs2.slabChunkSizes = [1; 4; 16; 64; 128].
 Proof. reflexivity. Qed.
+
+(** The slab schedule of the current source: non-empty, every chunk >= 1 struct (so [next] never
+    indexes an empty chunk), and its largest chunk times the largest slabbed struct (72 bytes)
+    times the 8 slabs is the constant the allocation accounting uses. *)
+Lemma bridge_slab_schedule :
+  (Gen.secs2.slabChunkSizes <> []) /\
+  (Forall (fun c => 1 <= c) Gen.secs2.slabChunkSizes) /\
+  (8 * max_chunk Gen.secs2.slabChunkSizes * 72 = slab_tail).
+Proof. split; [discriminate|]. split; [repeat constructor; lia|reflexivity]. Qed.
